@@ -32,6 +32,11 @@ fn async_lattice(tier: Tier, want_probe_only: bool) -> Vec<Cfg> {
     let max_rels: Vec<f64> = if q { vec![1.0, 2.0, 10.0] } else { vec![1.0, 1.25, 2.0, 4.0, 8.0, 10.0] };
     let chunks: Vec<usize> = if q { vec![1, 8, 64] } else { vec![1, 2, 7, 8, 16, 64] };
     let sinc_lens: Vec<usize> = if q { vec![8] } else { vec![8, 16, 64] };
+    // thorough: all eight (oversampling, interpolation) variants at L = 8, the four
+    // interpolations at L = 16, one at L = 64 (control depends on L only through offsets)
+    let variant_ok = |l: usize, os: usize, interp: Interp| -> bool {
+        q || l == 8 || (l == 16 && os == 2) || (l == 64 && os == 2 && interp == Interp::Cubic)
+    };
     let sinc_variants: Vec<(usize, Interp)> = if q {
         vec![(2, Interp::Cubic), (2, Interp::Linear)]
     } else {
@@ -58,8 +63,11 @@ fn async_lattice(tier: Tier, want_probe_only: bool) -> Vec<Cfg> {
                 for kind in [Kind::SI, Kind::SO] {
                     for &l in &sinc_lens {
                         for &(os, interp) in &sinc_variants {
+                            if !variant_ok(l, os, interp) {
+                                continue;
+                            }
                             let mut kernels = vec![Kernel::Probe];
-                            if !want_probe_only && (q || l == 8 || os == 2) {
+                            if !want_probe_only && (q || (l == 8 && os == 2)) {
                                 kernels.push(Kernel::Dispatch);
                             }
                             for kernel in kernels {
@@ -148,6 +156,28 @@ pub fn items(tier: Tier, id: &str) -> Vec<Item> {
             Item { cfgs: vec![c], f32_too }
         })
         .collect();
+    if id == "C10" || id == "C17" {
+        // adversarial ratios: chunk/ratio lands within rounding distance of an integer, where
+        // differently written formulas for the needed input size disagree
+        let nd = |x: f64| f64::from_bits(x.to_bits() - 1);
+        let nu = |x: f64| f64::from_bits(x.to_bits() + 1);
+        let mut cfgs = Vec::new();
+        for base in [1.0f64, 0.5, 2.0, 0.25] {
+            for r in [nd(base), nu(base), base * (1.0 - 1e-9), base * (1.0 + 1e-9), nd(nd(base))] {
+                for chunk in [64usize, 48] {
+                    for l in [8usize, 64, 256] {
+                        cfgs.push(Cfg::sinc(Kind::SO, r, 1.0, chunk, l, 2, Interp::Linear, Kernel::Probe));
+                        cfgs.push(Cfg::sinc(Kind::SI, r, 1.0, chunk, l, 2, Interp::Linear, Kernel::Probe));
+                    }
+                    cfgs.push(Cfg::fast(Kind::FO, r, 1.0, chunk, Degree::Cubic));
+                    cfgs.push(Cfg::fast(Kind::FI, r, 1.0, chunk, Degree::Cubic));
+                }
+            }
+        }
+        for c in cfgs.chunks(12) {
+            out.push(Item { cfgs: c.to_vec(), f32_too: false });
+        }
+    }
     if id != "C06" {
         for g in fft_groups(tier) {
             out.push(Item { cfgs: g, f32_too: tier == Tier::Thorough });
@@ -162,6 +192,7 @@ pub fn spec_for(id: &str, tier: Tier, cfg: &Cfg) -> Spec {
         "C06" => Alpha::Ratio,
         "C13" => Alpha::FullBad,
         "C09" => Alpha::FullBad,
+        "C10" => Alpha::FullBad,
         _ => Alpha::Full,
     };
     // Non-closing configurations (orbits that never repeat) are limited by the horizon; they get
@@ -175,7 +206,9 @@ pub fn spec_for(id: &str, tier: Tier, cfg: &Cfg) -> Spec {
         1
     };
     let horizon = if q { [48, 24, 12, 8] } else { [256, 64, 24, 8] };
-    let signal = if cfg.kind.is_sinc() && cfg.kernel != Kernel::Probe {
+    let signal = if id == "C10" || id == "C17" {
+        Signal::Noise
+    } else if cfg.kind.is_sinc() && cfg.kernel != Kernel::Probe {
         Signal::Noise
     } else if cfg.kind.is_fft() {
         Signal::Noise
@@ -190,6 +223,8 @@ pub fn spec_for(id: &str, tier: Tier, cfg: &Cfg) -> Spec {
         props: Props::only(id),
         signal,
         max_states: if q { 30_000 } else { 300_000 },
+        final_layer: if id == "C10" { vec![Op::Z] } else { vec![] },
+        sample_every: if id == "C10" { if q { 16 } else { 8 } } else { 0 },
     }
 }
 
@@ -224,9 +259,28 @@ fn outcome_json(cfg: &Cfg, o: &Outcome, ty: &str) -> Value {
     })
 }
 
+fn twin_class(cfg: &Cfg) -> String {
+    match cfg.kind {
+        Kind::FI | Kind::FO => format!("fast-{}", cfg.degree.name()),
+        Kind::SI | Kind::SO => "sinc".into(),
+        _ => "fft".into(),
+    }
+}
+
 fn merge(into: &mut Value, add: Value) {
+    if let (Some(c), Some(w)) = (add["extra"]["class"].as_str(), add["extra"]["worst_units"].as_f64()) {
+        let cur = into["extra"]["worst"][c].as_f64().unwrap_or(0.0);
+        if into.is_null() {
+            // handled below
+        } else {
+            into["extra"]["worst"][c] = json!(cur.max(w));
+        }
+    }
     if into.is_null() {
         *into = add;
+        if let (Some(c), Some(w)) = (into["extra"]["class"].as_str().map(String::from), into["extra"]["worst_units"].as_f64()) {
+            into["extra"]["worst"] = json!({ c: w });
+        }
         return;
     }
     for k in ["states", "transitions", "horizon_caps", "closed", "state_caps", "terminal", "effective_deviations", "found_overflow"] {
@@ -279,9 +333,22 @@ impl Check for CtrlCheck {
                 }
             };
             let jref: Option<&dyn Fn(&[Op], Op)> = if journal.is_some() { Some(&jf) } else { None };
-            let o = explore::<f64>(&spec, jref).map_err(|e| format!("{}: {}", cfg.short(), e))?;
+            if self.id == "C17" {
+                let mk = || -> Result<Box<dyn crate::explore::Sys>, String> {
+                    Ok(Box::new(crate::twin::TwinSys::new(cfg)?))
+                };
+                let o = crate::explore::explore_sys(&spec, &mk, jref).map_err(|e| format!("{}: {}", cfg.short(), e))?;
+                let mut oj = outcome_json(cfg, &o, "twin");
+                oj["extra"] = json!({"worst_units": crate::twin::WORST.with(|w| w.replace(0.0)), "class": twin_class(cfg)});
+                merge(&mut acc, oj);
+                continue;
+            }
+            let mut o = explore::<f64>(&spec, jref).map_err(|e| format!("{}: {}", cfg.short(), e))?;
+            if self.id == "C10" {
+                crate::c10::continuations(cfg, &mut o)?;
+            }
             merge(&mut acc, outcome_json(cfg, &o, "f64"));
-            if item.f32_too {
+            if item.f32_too && self.id != "C10" {
                 let o = explore::<f32>(&spec, jref).map_err(|e| format!("{}: {}", cfg.short(), e))?;
                 merge(&mut acc, outcome_json(cfg, &o, "f32"));
             }
